@@ -56,6 +56,13 @@ func urlReplay(s *Summary, raw json.RawMessage) {
 		want[nv[0].(string)] = tokStr(anyToks(nv[1]))
 	}
 	built := tokStr(c.Built)
+	// a value that contains a brace is substituted several times: the order in which the code walks its maps must not matter
+	reps := 1
+	for _, v := range want {
+		if strings.ContainsAny(v, "{}") {
+			reps = 6
+		}
+	}
 	extras := [][2]string{{"q", "a b&c"}, {"page", "2"}}
 	for style := 0; style < 6; style++ {
 		strict := style >= 3 // the same three argument styles on a StrictLastSlash router
@@ -63,7 +70,8 @@ func urlReplay(s *Summary, raw json.RawMessage) {
 			s.addInfo("skipped_not_routable", 1)
 			continue
 		}
-		for nextra := 0; nextra <= 2; nextra++ {
+		for it := 0; it < 3*reps; it++ {
+			nextra := it % 3
 			r := rux.New()
 			if strict {
 				r = rux.New(rux.StrictLastSlash)
